@@ -115,7 +115,9 @@ type cfgD struct {
 }
 
 type opD struct {
-	kind  string // aa | rel | rbh
+	kind  string // aa | rel | rbh | relaff
+	addr  uint32
+	must  bool
 	node  int
 	use   int
 	ns    [][2]int
@@ -247,6 +249,8 @@ func (o *opD) coq() string {
 	case "aa":
 		return fmt.Sprintf("OpAutoAssign (Build_request %d%%N %s %s %s %d%%nat %d%%N %d%%N %d%%nat)", o.node, useCoq[o.use],
 			labCoq(o.ns), pairs32Coq(o.req), o.maxb, o.h, o.tag, o.num)
+	case "relaff":
+		return fmt.Sprintf("OpReleaseAffinity %d%%N %d%%N %v", o.node, o.addr, o.must)
 	case "rel":
 		var ss []string
 		for _, r := range o.rel {
@@ -275,6 +279,8 @@ func (o *opD) text() string {
 		}
 		return fmt.Sprintf("AutoAssign(node n%d, use %s, ns %v nil=%v, pools %v, maxBlocks %d, h%d, n=%d)", o.node, useNames[o.use],
 			labMap(o.ns), o.nsNil, rq, o.maxb, o.h, o.num)
+	case "relaff":
+		return fmt.Sprintf("ReleaseAffinity(block %s, host n%d, mustBeEmpty=%v)", ip4(o.addr), o.node, o.must)
 	case "rel":
 		var ss []string
 		for _, r := range o.rel {
@@ -593,9 +599,49 @@ func (w *world) blockOf(a uint32) uint32 {
 	return a
 }
 
+func (w *world) randomBlock() uint32 {
+	p := w.cfg.pools[w.r.intn(len(w.cfg.pools))]
+	return p.base + uint32(w.r.intn(p.nblocks)*p.bsize)
+}
+
+// genInner: an operation that runs while `outer` (an AutoAssign) is preempted: ReleaseAffinity of one of the outer
+// host's blocks (or any block), or an AutoAssign / ReleaseByHandle of another node with handles h7..h9.
+func (w *world) genInner(outer *opD, sn snapD) *opD {
+	r := w.r
+	k := r.intn(100)
+	if k < 45 {
+		o := &opD{kind: "relaff", node: outer.node, must: r.chance(50), addr: w.randomBlock()}
+		var mine []uint32
+		for _, a := range sn.affs {
+			if a[0] == uint32(2*outer.node) {
+				mine = append(mine, a[1])
+			}
+		}
+		if len(mine) > 0 && r.chance(85) {
+			o.addr = mine[r.intn(len(mine))]
+		}
+		return o
+	}
+	if k < 60 {
+		return &opD{kind: "rbh", h: 7 + r.intn(3)}
+	}
+	for {
+		o := w.genOp(false)
+		if o.kind != "aa" {
+			continue
+		}
+		o.node = (outer.node + 1 + r.intn(len(w.cfg.nodes)-1)) % len(w.cfg.nodes)
+		o.h = 7 + r.intn(3)
+		return o
+	}
+}
+
 func (w *world) genOp(boundary bool) *opD {
 	r := w.r
 	k := r.intn(100)
+	if r.chance(4) {
+		return &opD{kind: "relaff", node: r.intn(len(w.cfg.nodes)), must: r.chance(60), addr: w.randomBlock()}
+	}
 	if k >= 65 && len(w.alloc) > 0 {
 		var addrs []uint32
 		for a := range w.alloc {
@@ -715,15 +761,11 @@ func runCase(seed uint64, boundary bool) (string, bool, string, map[string]any, 
 	ic := ipam.NewIPAMClient(st, pa, ra)
 
 	w := &world{cfg: cfg, r: r, alloc: map[uint32]int{}}
-	nops := 30 + r.intn(21)
-	var ops []*opD
-	var ress []*resD
-	var snaps []snapD
+	nops := 25 + r.intn(16)
 	okAssign, failAssign, effRel, globalCap := 0, 0, 0, false
 	tags := map[string]bool{}
-	prev := snapshot(st.Store)
-	for k := 0; k < nops; k++ {
-		o := w.genOp(boundary)
+	// run one operation through the given client (the real ipamClient)
+	execOp := func(cl ipam.Interface, o *opD) *resD {
 		res := &resD{}
 		hs := fmt.Sprintf("h%d", o.h)
 		switch o.kind {
@@ -737,7 +779,7 @@ func runCase(seed uint64, boundary bool) (string, bool, string, map[string]any, 
 				_, ipn, _ := cnet.ParseCIDR(fmt.Sprintf("%s/%d", ip4(rq[0]), 32-log2(int(rq[1]))))
 				args.IPv4Pools = append(args.IPv4Pools, *ipn)
 			}
-			v4, _, err := ic.AutoAssign(ctx, args)
+			v4, _, err := cl.AutoAssign(ctx, args)
 			res.kind, res.err = "ips", classifyErr(err)
 			if v4 != nil {
 				for _, ipn := range v4.IPs {
@@ -765,7 +807,7 @@ func runCase(seed uint64, boundary bool) (string, bool, string, map[string]any, 
 				}
 				ro = append(ro, opt)
 			}
-			un, _, err := ic.ReleaseIPs(ctx, ro...)
+			un, _, err := cl.ReleaseIPs(ctx, ro...)
 			res.kind, res.err = "rel", classifyErr(err)
 			for _, u := range un {
 				res.un = append(res.un, ipnum(u.IP))
@@ -779,9 +821,20 @@ func runCase(seed uint64, boundary bool) (string, bool, string, map[string]any, 
 					effRel++
 				}
 			}
+		case "relaff":
+			bl := 30
+			for _, p := range cfg.pools {
+				if o.addr >= p.base && o.addr < p.base+uint32(p.nblocks*p.bsize) {
+					bl = 32 - log2(p.bsize)
+				}
+			}
+			_, ipn, _ := cnet.ParseCIDR(fmt.Sprintf("%s/%d", ip4(o.addr), bl))
+			err := cl.ReleaseAffinity(ctx, *ipn, fmt.Sprintf("n%d", o.node), o.must)
+			res.kind, res.err = "err", classifyErr(err)
+			tags["release-affinity"] = true
 		default:
 			st.rec, st.gets = true, nil
-			err := ic.ReleaseByHandle(ctx, hs)
+			err := cl.ReleaseByHandle(ctx, hs)
 			st.rec = false
 			seen := map[uint32]bool{}
 			for _, c := range st.gets {
@@ -800,43 +853,108 @@ func runCase(seed uint64, boundary bool) (string, bool, string, map[string]any, 
 				}
 			}
 		}
-		ops = append(ops, o)
-		ress = append(ress, res)
-		sn := snapshot(st.Store)
-		if o.kind == "aa" {
-			host := uint32(2 * o.node)
-			if o.use == 2 {
-				host++
-			}
-			capv := cfg.maxblocks
-			if o.maxb != 0 && (capv == 0 || o.maxb < capv) {
-				capv = o.maxb
-			}
-			if capv == 0 {
-				capv = 20
-			}
-			if after, before := sn.countAffs(host), prev.countAffs(host); after > capv && after > before {
-				globalCap = true
-			}
+		return res
+	}
+	type obsD struct {
+		o         *opD
+		res       *resD
+		pre, post snapD
+	}
+	var obsL []obsD
+	var itemsC []string
+	checkCap := func(ob obsD) {
+		o := ob.o
+		if o.kind != "aa" {
+			return
 		}
-		prev = sn
-		snaps = append(snaps, sn)
+		host := uint32(2 * o.node)
+		if o.use == 2 {
+			host++
+		}
+		capv := cfg.maxblocks
+		if o.maxb != 0 && (capv == 0 || o.maxb < capv) {
+			capv = o.maxb
+		}
+		if capv == 0 {
+			capv = 20
+		}
+		if after, before := ob.post.countAffs(host), ob.pre.countAffs(host); after > capv && after > before {
+			globalCap = true
+		}
+	}
+	npre := 0
+	for k := 0; k < nops; k++ {
+		o := w.genOp(boundary)
+		if o.kind == "aa" && len(cfg.nodes) > 1 && r.chance(25) {
+			// one preemption: the operation runs on the membackend scheduler until it has made kChosen accesses or is
+			// about to write a block for the first time; then other complete operations run; then it resumes.
+			sched := mb.NewSched(st.Store)
+			sched.Scheduled = mb.IPAMOnly
+			runner := mb.NewRunner(sched)
+			icp := ipam.NewIPAMClient(sched.Client(0), pa, ra)
+			pre := snapshot(st.Store)
+			var res *resD
+			runner.Start(0, func() { res = execOp(icp, o) })
+			kChosen, steps, kAt := r.intn(10), 0, -1
+			var inner []obsD
+			for len(runner.Pending()) > 0 {
+				call := runner.Peek(0)
+				_, isBlk := call.Key.(model.BlockKey)
+				if kAt < 0 && (steps == kChosen || (call.Op == "update" && isBlk)) {
+					kAt = steps
+					if call.Op == "update" && isBlk {
+						tags["preempt:at-block-write"] = true
+					} else {
+						tags["preempt:earlier"] = true
+					}
+					for n := 1 + r.intn(3); n > 0; n-- {
+						io := w.genInner(o, snapshot(st.Store))
+						ipre := snapshot(st.Store)
+						ires := execOp(ic, io)
+						inner = append(inner, obsD{io, ires, ipre, snapshot(st.Store)})
+					}
+				}
+				runner.Step(0, mb.Proceed)
+				steps++
+			}
+			outer := obsD{o, res, pre, snapshot(st.Store)}
+			obsL = append(obsL, outer)
+			obsL = append(obsL, inner...)
+			if kAt >= 0 {
+				npre++
+				var ic_ []string
+				for _, x := range inner {
+					ic_ = append(ic_, x.o.coq())
+				}
+				itemsC = append(itemsC, fmt.Sprintf("IPre (%s) %d%%nat [%s]", o.coq(), kAt, strings.Join(ic_, "; ")))
+			} else {
+				itemsC = append(itemsC, fmt.Sprintf("IOp (%s)", o.coq()))
+			}
+			continue
+		}
+		pre := snapshot(st.Store)
+		res := execOp(ic, o)
+		obsL = append(obsL, obsD{o, res, pre, snapshot(st.Store)})
+		itemsC = append(itemsC, fmt.Sprintf("IOp (%s)", o.coq()))
+	}
+	if npre > 0 {
+		tags["preempted-ops"] = true
 	}
 
-	var opsC, resC, snC, finC, opsT []string
-	for i := range ops {
-		opsC = append(opsC, ops[i].coq())
-		resC = append(resC, ress[i].coq())
-		snC = append(snC, snaps[i].coq())
-		opsT = append(opsT, ops[i].text()+" -> "+ress[i].text())
+	var opsC, obsC, finC, opsT []string
+	for _, ob := range obsL {
+		checkCap(ob)
+		opsC = append(opsC, ob.o.coq())
+		obsC = append(obsC, fmt.Sprintf("Build_obs (%s) (%s) (%s) (%s)", ob.o.coq(), ob.res.coq(), ob.pre.coq(), ob.post.coq()))
+		opsT = append(opsT, ob.o.text()+" -> "+ob.res.text())
 	}
 	for _, e := range dump(st.Store) {
 		finC = append(finC, fmt.Sprintf("(%s, %s)", e.key, e.val))
 	}
-	key := fmt.Sprintf("%s|%s", cfg.coq(), strings.Join(opsC, ";"))
+	key := fmt.Sprintf("%s|%s", cfg.coq(), strings.Join(itemsC, ";"))
 	mk := func(literal bool) string {
-		return fmt.Sprintf("Build_case %s [%s] [%s] [%s] [%s] %v", cfg.coq(), strings.Join(opsC, "; "), strings.Join(resC, "; "),
-			strings.Join(snC, "; "), strings.Join(finC, "; "), literal)
+		return fmt.Sprintf("Build_case %s [%s] [%s] [%s] %v", cfg.coq(), strings.Join(itemsC, "; "), strings.Join(obsC, "; "),
+			strings.Join(finC, "; "), literal)
 	}
 	var poolT []string
 	for i, p := range pa.pools {
